@@ -1,0 +1,150 @@
+//go:build verif && (verif_all || verif_c10)
+// +build verif
+// +build verif_all verif_c10
+
+package gocql
+
+// Verification hooks for C10, fourth file (build tag `verif`): the token-aware policy's cluster metadata
+// (token ring + per-keyspace replica maps) as a function of the HISTORY of policy events. The policy itself is
+// driven through its public API (AddHost, AddHosts, RemoveHost, HostUp, HostDown, SetPartitioner,
+// KeyspaceChanged, Pick); these hooks only (1) build HostInfo values, (2) install what Init takes from a
+// Session (keyspace metadata reader, session keyspace name, logger), (3) read the metadata snapshot
+// (getMetadataReadOnly) and (4) provide a stub ExecutableQuery with a routing key. Add-only.
+
+import (
+	"context"
+	"net"
+	"sort"
+	"time"
+)
+
+// VerifC10NewHost builds a HostInfo (state UP) with the given host id, connect address 10.0.0.<addr>,
+// datacenter, rack and tokens.
+func VerifC10NewHost(hostID string, addr int, dc, rack string, tokens []string) *HostInfo {
+	ip := net.IPv4(10, 0, byte(addr>>8), byte(addr))
+	return &HostInfo{hostId: hostID, connectAddress: ip, rpcAddress: ip, peer: ip, port: 9042,
+		dataCenter: dc, rack: rack, tokens: tokens, state: NodeUp}
+}
+
+// VerifC10PolInit does what tokenAwareHostPolicy.Init does, without a Session: the keyspace metadata reader
+// and the session keyspace name are the given functions.
+func VerifC10PolInit(p HostSelectionPolicy, sessionKs func() string, read func(ks string) (*KeyspaceMetadata, error)) {
+	t := p.(*tokenAwareHostPolicy)
+	t.mu.Lock()
+	defer t.mu.Unlock()
+	t.getKeyspaceMetadata = read
+	t.getKeyspaceName = sessionKs
+	t.logger = nopLogger{}
+}
+
+// VerifC10PolMeta is a read-only copy of the policy's metadata snapshot.
+type VerifC10PolMeta struct {
+	HasMeta  bool
+	HasRing  bool
+	Ring     []string            // "token:hostid", as stored
+	Keys     []string            // keyspaces with an entry, sorted
+	Replicas map[string][]string // keyspace -> "token:[id,id]" entries as stored
+}
+
+// VerifC10PolDump returns the metadata the policy's Pick consults (getMetadataReadOnly).
+func VerifC10PolDump(p HostSelectionPolicy) VerifC10PolMeta {
+	t := p.(*tokenAwareHostPolicy)
+	var out VerifC10PolMeta
+	meta := t.getMetadataReadOnly()
+	if meta == nil {
+		return out
+	}
+	out.HasMeta = true
+	if meta.tokenRing != nil {
+		out.HasRing = true
+		for _, ht := range meta.tokenRing.tokens {
+			out.Ring = append(out.Ring, ht.token.String()+":"+ht.host.HostID())
+		}
+	}
+	out.Replicas = map[string][]string{}
+	for ks, tab := range meta.replicas {
+		out.Keys = append(out.Keys, ks)
+		es := make([]string, 0, len(tab))
+		for _, e := range tab {
+			s := e.token.String() + ":["
+			for i, h := range e.hosts {
+				if i > 0 {
+					s += ","
+				}
+				s += h.HostID()
+			}
+			es = append(es, s+"]")
+		}
+		out.Replicas[ks] = es
+	}
+	sort.Strings(out.Keys)
+	return out
+}
+
+// VerifC10PolHosts returns the host ids of the policy's own host list (t.hosts), in order.
+func VerifC10PolHosts(p HostSelectionPolicy) []string {
+	t := p.(*tokenAwareHostPolicy)
+	var out []string
+	for _, h := range t.hosts.get() {
+		out = append(out, h.HostID())
+	}
+	return out
+}
+
+// VerifC10PolPartitioner returns t.partitioner.
+func VerifC10PolPartitioner(p HostSelectionPolicy) string {
+	t := p.(*tokenAwareHostPolicy)
+	t.mu.Lock()
+	defer t.mu.Unlock()
+	return t.partitioner
+}
+
+// VerifC10PolLookup reads the snapshot the way Pick does for a token given as a string:
+// meta.replicas[ks].replicasFor(token), else the owner from meta.tokenRing.GetHostForToken(token).
+// src is "noring" (Pick uses the fallback policy only), "replicas" or "owner".
+func VerifC10PolLookup(p HostSelectionPolicy, ks string, tok string) (ids []string, src string) {
+	t := p.(*tokenAwareHostPolicy)
+	meta := t.getMetadataReadOnly()
+	if meta == nil || meta.tokenRing == nil {
+		return nil, "noring"
+	}
+	token := meta.tokenRing.partitioner.ParseString(tok)
+	ht := meta.replicas[ks].replicasFor(token)
+	if ht == nil {
+		host, _ := meta.tokenRing.GetHostForToken(token)
+		if host == nil {
+			return nil, "owner"
+		}
+		return []string{host.HostID()}, "owner"
+	}
+	for _, h := range ht.hosts {
+		ids = append(ids, h.HostID())
+	}
+	return ids, "replicas"
+}
+
+type verifC10Query struct {
+	ks string
+	rk []byte
+}
+
+// VerifC10Query is a stub ExecutableQuery with the given keyspace and routing key.
+func VerifC10Query(keyspace string, routingKey []byte) ExecutableQuery {
+	return &verifC10Query{keyspace, routingKey}
+}
+
+func (q *verifC10Query) borrowForExecution()                                                    {}
+func (q *verifC10Query) releaseAfterExecution()                                                 {}
+func (q *verifC10Query) execute(ctx context.Context, conn *Conn) *Iter                          { return nil }
+func (q *verifC10Query) attempt(keyspace string, end, start time.Time, iter *Iter, h *HostInfo) {}
+func (q *verifC10Query) retryPolicy() RetryPolicy                                               { return nil }
+func (q *verifC10Query) speculativeExecutionPolicy() SpeculativeExecutionPolicy                 { return nil }
+func (q *verifC10Query) GetRoutingKey() ([]byte, error)                                         { return q.rk, nil }
+func (q *verifC10Query) Keyspace() string                                                       { return q.ks }
+func (q *verifC10Query) Table() string                                                          { return "t" }
+func (q *verifC10Query) IsIdempotent() bool                                                     { return true }
+func (q *verifC10Query) withContext(context.Context) ExecutableQuery                            { return q }
+func (q *verifC10Query) Attempts() int                                                          { return 0 }
+func (q *verifC10Query) SetConsistency(c Consistency)                                           {}
+func (q *verifC10Query) GetConsistency() Consistency                                            { return Quorum }
+func (q *verifC10Query) Context() context.Context                                               { return context.Background() }
